@@ -35,18 +35,18 @@ Proof. exact (unrelated_variable_does_not_matter T vals v x r). Qed.
 Print Assumptions C16_unrelated_variable_does_not_matter.
 
 
-Theorem C16_table_soundness : forallb (fun m => wf_table (build code_now m) && sound (build code_now m)) models = true.
+Theorem C16_table_soundness : forallb (fun m => wf_table (build_z code_now m) && sound (build_z code_now m)) models = true.
 Proof. exact (@table_soundness). Qed.
 Print Assumptions C16_table_soundness.
 
 Theorem C16_history_independence_code m vals ops r : In m models ->
-  let T := build code_now m in let s := run T (init T vals) ops in
+  let T := build_z code_now m in let s := run T (init T vals) ops in
   obs T s r = obs T (realize T (m_stg s) (init T (m_vals s))) r.
 Proof. exact (history_independence_code m vals ops r). Qed.
 Print Assumptions C16_history_independence_code.
 
 Theorem C16_cached_values_fresh_code m vals ops r l : In m models ->
-  let T := build code_now m in
+  let T := build_z code_now m in
   slot (run T (init T vals) ops) r = Some l -> l = fv T (m_vals (run T (init T vals) ops)) r.
 Proof. exact (cached_values_fresh_code m vals ops r l). Qed.
 Print Assumptions C16_cached_values_fresh_code.
@@ -65,7 +65,7 @@ Proof. exact (@history_independence_refuted_old_table). Qed.
 Print Assumptions C16_history_independence_refuted_old_table.
 
 Theorem C16_witness_fresh_now :
-  let T := build code_now m0 in stale_results T (run T (init T [0;0;0;0;0;1;0]) (witness code_now)) = []
+  let T := build_z code_now m0 in stale_results T (run T (init T [0;0;0;0;0;1;0]) (witness code_now)) = []
   /\ nth (r_elem 0) (m_cnt (run T (init T [0;0;0;0;0;1;0]) (witness code_now))) 0 = 2.
 Proof. exact (@witness_fresh_now). Qed.
 Print Assumptions C16_witness_fresh_now.
@@ -79,7 +79,7 @@ Proof. exact (@gravity_setter_without_invalidate_refuted). Qed.
 Print Assumptions C16_gravity_setter_without_invalidate_refuted.
 
 Theorem C16_flag_not_reset_at_position_refuted :
-  let c := with_fsub code_now (mkF 3 4 7) in     (* reset moved to realizeSubsystemTimeImpl *)
+  let c := with_fsub code_now (mkF 3 4 7 true) in     (* reset moved to realizeSubsystemTimeImpl *)
   let T := build c m0 in
   wf_table T = true /\ sound T = false /\
   stale_results T (run T (init T [0;0;0;0;0;1;0]) [Realize 7; SetVar V_Q 1; Realize 7]) <> [].
@@ -87,7 +87,7 @@ Proof. exact (@flag_not_reset_at_position_refuted). Qed.
 Print Assumptions C16_flag_not_reset_at_position_refuted.
 
 Theorem C16_history_independence_nonvacuous :
-  let m := nth 1 models m0 in let T := build code_now m in
+  let m := nth 1 models m0 in let T := build_z code_now m in
   let s := run T (init T (repeat 1 (nvars T))) [Realize 7; SetVar (v_par code_now m 0 0) 5; Realize 5; Query (r_grav m); SetVar V_U 2; Realize 8] in
   m_stg s = 8 /\ obs T s (r_total m) <> None /\ obs T s (r_total m) = obs T (realize T 8 (init T (m_vals s))) (r_total m)
   /\ nth (r_elem 3) (m_cnt s) 0 = 2 /\ nth (r_elem 4) (m_cnt s) 0 = 2 /\ nth (r_grav m) (m_cnt s) 0 = 2.
@@ -95,18 +95,21 @@ Proof. exact (@history_independence_nonvacuous). Qed.
 Print Assumptions C16_history_independence_nonvacuous.
 
 
-Theorem C16_zdot_of_disabled_element_refuted :
-  let T := build_z code_now mz in let r := r_zdot mz 0 in
-  wf_table T = false /\ wf_table (build code_now mz) = true /\ sound (build code_now mz) = true /\
+
+Theorem C16_zdot_of_disabled_element_refuted_old_table :
+  let T := build_z (code_zold code_now) mz in let r := r_zdot mz 0 in
+  wf_table T = false /\ wf_table (build_z code_now mz) = true /\ sound (build_z code_now mz) = true /\
   exists vals ops, let s := run T (init T vals) ops in
      ops = [Realize 8; SetVar (v_en mz 0) 0; Realize 8] /\ m_stg s = 8 /\
      obs T s r <> obs T (realize T (m_stg s) (init T (m_vals s))) r /\
      (forall r', r' < r -> obs T s r' = obs T (realize T (m_stg s) (init T (m_vals s))) r').
-Proof. exact (@zdot_of_disabled_element_refuted). Qed.
-Print Assumptions C16_zdot_of_disabled_element_refuted.
+Proof. exact (@zdot_of_disabled_element_refuted_old_table). Qed.
+Print Assumptions C16_zdot_of_disabled_element_refuted_old_table.
 
-Theorem C16_zdot_repaired_table_soundness :
-  forallb (fun m => wf_table (unskip (build_z code_now m)) && sound (unskip (build_z code_now m))) models = true.
-Proof. exact (@zdot_repaired_table_soundness). Qed.
-Print Assumptions C16_zdot_repaired_table_soundness.
+Theorem C16_zdot_witness_fresh_now :
+  let T := build_z code_now mz in let s := run T (init T [0;0;0;0;0;1;0]) [Realize 8; SetVar (v_en mz 0) 0; Realize 8] in
+  stale_results T s = [] /\ obs T s (r_zdot mz 0) <> None /\
+  obs T s (r_zdot mz 0) = obs T (realize T (m_stg s) (init T (m_vals s))) (r_zdot mz 0).
+Proof. exact (@zdot_witness_fresh_now). Qed.
+Print Assumptions C16_zdot_witness_fresh_now.
 
